@@ -108,6 +108,11 @@ def condfail_cases(rng, tier):
         if nm in SKIP_ARM or nm in SKIP_THUMB:
             continue
         plan.append((kind, w))
+    # the generic-coprocessor instructions (p14; CPACR at its reset value denies the access): a failing condition must win over the
+    # acceptance test, i.e. no Undefined Instruction exception; ARM words and the same bit patterns as 32-bit Thumb words
+    for base in (0x0C521E10, 0x0C421E10, 0x0E111E10, 0x0E011E10, 0x0E000E00, 0x0D911E04, 0x0D811E04, 0x0C911E04):
+        plan.append(('arm', base))
+        plan.append(('t32', 0xE0000000 | base))
     for kind, w in plan:
         cond = rng.randrange(14)
         nzcv = FAIL[cond]
